@@ -244,7 +244,12 @@ def run_case_files(name, header, case_type, check_fun, cases, chunk=300,
 
     bad, errors = [], []
     with ThreadPoolExecutor(max_workers=jobs) as pool:
-        for base, path, rc, out in pool.map(one, files):
+        results = list(pool.map(one, files))
+    # a coqc killed by the machine (load, OOM, a stray signal) is retried once,
+    # serially; a genuine Coq error fails again and is reported
+    results = [res if res[2] == 0 else one(res[:2]) for res in results]
+    if True:
+        for base, path, rc, out in results:
             m = re.search(r'=\s*\[(.*?)\]\s*:\s*list N', out, flags=re.S)
             if rc != 0 or not m:
                 errors.append(f'{path.name}: rc={rc}\n{out[-2000:]}')
